@@ -12,6 +12,7 @@ package controllers
 // accept/reject verdict.
 
 import (
+	"time"
 	"encoding/json"
 	"fmt"
 	"reflect"
@@ -122,6 +123,10 @@ func c18Snapshots(k int) map[string]*config.ClusterResources {
 		rich.Peers = append(rich.Peers, metallbv1beta2.BGPPeer{ObjectMeta: om("peer-"+n, nil),
 			Spec: metallbv1beta2.BGPPeerSpec{MyASN: 64512, ASN: uint32(64600 + i), Address: fmt.Sprintf("192.168.0.%d", i+1),
 				BFDProfile: "bfd-" + names[(i+1)%k], NodeSelectors: []metav1.LabelSelector{sel("rack", fmt.Sprint(i%2))}}})
+		if i == 1 {
+			// a hold time that is not a whole number of seconds, keepalive left to its default
+			rich.Peers[i].Spec.HoldTime = &metav1.Duration{Duration: 10500 * time.Millisecond}
+		}
 		rich.BFDProfiles = append(rich.BFDProfiles, metallbv1beta1.BFDProfile{ObjectMeta: om("bfd-"+n, nil),
 			Spec: metallbv1beta1.BFDProfileSpec{ReceiveInterval: ptr.To(uint32(100 + i))}})
 		l2 := metallbv1beta1.L2Advertisement{ObjectMeta: om("l2-"+n, nil)}
@@ -400,6 +405,20 @@ func TestVerif_C18(t *testing.T) {
 			verdict = "rejected"
 		}
 		res.Outcome(c.Snapshot + "/" + c.Validate + ":" + verdict)
+		if len(c.MapOrder) == 0 && len(c.Perms) == 0 {
+			// computing a configuration must not change the listed objects (an informer cache hands out shared objects),
+			// and computing it again from the very same objects gives the same result
+			before, _ := json.Marshal(c18Apply(snap, c.Perms)) // what was handed in above, before anything was computed from it
+			after, _ := json.Marshal(in)
+			cfgA, errA := cfg, err
+			cfgB, errB := toConfig(in, c18Validator(c.Validate))
+			res.Count("evaluations", 1)
+			if string(before) != string(after) {
+				res.Violate("config-differs cause=input-objects-modified-by-the-computation", fmt.Sprintf("snapshot %s validator %s: the listed objects changed while the configuration was computed", c.Snapshot, c.Validate), c)
+			} else if d2 := c18Diff(cfgA, cfgB, errA, errB); d2 != "" {
+				res.Violate("config-differs cause=repetition-on-the-same-objects diff="+d2, fmt.Sprintf("snapshot %s validator %s", c.Snapshot, c.Validate), c)
+			}
+		}
 		if ch == nil && len(c.MapOrder) == 0 && len(c.Perms) > 0 {
 			// the admission webhooks hand the lists to config.For as they were listed (no sorting in front of it): the
 			// verdict must be the same there
